@@ -5,8 +5,10 @@ PathControl::interpolate/check; arithmetic-free, for every step function / valid
 script / interruption point).
 Correspondence (harness/control.cpp linking the real libompl vs drv_control):
   (a) propagate / propagateWhileValid, all overloads, lock-step on scripted validity predicates;
-  (b) control::RRT (both intermediate-state modes, NearestNeighborsLinear) and control::SST (tree, costs, witness set;
-      step counts replayed by a twin of the planner's RNG) run with recording samplers,
+  (b) control::RRT (both intermediate-state modes, NearestNeighborsLinear), control::SST (tree, costs, witness set;
+      step counts replayed by a twin of the planner's RNG), control::EST (grid cells + PDF weights) and control::KPIECE1
+      (GridB cells with scores/importance/neighbour counts, cell-boundary splitting; for these two the planner's own RNG
+      is the bit-exact model of C20 seeded like the real one) run with recording samplers,
       the Lean model re-run on the recorded draws: status, approximate flag, difference, path and the
       whole tree must be identical bit for bit; (b2) the same planner driven by scripted samplers on hand-shaped
       lattice scripts (exact ties, threshold hits, out-of-range step counts) against the model on the same line;
@@ -384,6 +386,8 @@ def parse_plan_line(line):
         return ("RRTi" if kv["inter"] == "1" else "RRT"), pb, 0, line.count(" U ") + line.count(" G")
     if t[0] == "sst":
         return "SST", pb, int(kv["seed"]), int(kv["iters"])
+    if t[0] in ("est", "kpiece"):
+        return {"est": "EST", "kpiece": "KPIECE1"}[t[0]], pb, int(kv["seed"]), int(kv["iters"])
     return ("RRTi" if kv["inter"] == "1" else "RRT"), pb, int(kv["seed"]), int(kv["iters"])
 
 
@@ -647,9 +651,10 @@ def run(ck):
                    "model abstractions: functional states instead of buffers (aliasing modelled separately as pwvAlias), step counts "
                    "instead of double durations inside the model (converted at the protocol boundary), tree indices instead of pointers"]
     ck.assumptions += ["the user's propagator, validity checker, distance and goal are deterministic pure functions (parameters of every theorem)",
-                       "planners other than control::RRT and control::SST are covered only on the explored runs (trace conformance, no model)",
+                       "planners other than control::RRT, SST, EST and KPIECE1 (i.e. PDST, SyclopRRT, SyclopEST) are covered only on the explored runs (trace conformance, no model)",
                        "every duration must be a whole number k >= 0 of steps; k in [minSteps,maxSteps] is proved for control::RRT "
-                       "(k = 1 with intermediate states) and only counted for the others (KPIECE1/PDST split motions at cell boundaries)"]
+                       "(k = 1 with intermediate states), control::EST and control::SST (exactly the drawn count); control::KPIECE1 is proved to report "
+                       "1 <= k <= drawn count (motions split at cell boundaries); PDST/Syclop are only counted"]
     ck.lean_build(LEAN_TARGETS)
     ck.audit(roots=["Drv.Control"])
     if ck.tier == "thorough" and ck.lean_ok:
@@ -667,8 +672,8 @@ def run(ck):
     scripts.append(("pwv", ["control"] + gen_pwv_scripts(ck.rng.fork("pwv"), 300 if quick else 4000)))
     plan_corpus = []
     for tag, script in scripts:
-        lines = [l for l in script[1:] if l.split()[0] not in ("plan", "rrt", "sst")]
-        plan_corpus += [l for l in script[1:] if l.split()[0] in ("plan", "rrt", "sst")]
+        lines = [l for l in script[1:] if l.split()[0] not in ("plan", "rrt", "sst", "est", "kpiece")]
+        plan_corpus += [l for l in script[1:] if l.split()[0] in ("plan", "rrt", "sst", "est", "kpiece")]
         if not lines:
             continue
         s = [script[0]] + lines
@@ -752,7 +757,7 @@ def run(ck):
     rs3 = ck.rng.fork("sst")
     for kind in ("point", "uni", "dint", "car"):
         for envname in ("empty", "wall", "two"):
-            for rep in range(6 if quick else 24):
+            for rep in range(10 if quick else 30):
                 pb = std_problem(kind, rs3.below(3), envname, pick_goal_kind(rs3)) if rep % 2 == 0 else random_problem(rs3, kind)
                 seed = rs3.below(100000)
                 iters = rs3.choice([0, 5, 60, 500, 2000] if quick else [0, 2, 30, 300, 2000, 5000])
@@ -760,19 +765,48 @@ def run(ck):
                 line = " ".join(["sst"] + pb.toks() + ["sel=" + B(sel), "prune=" + B(prune), "bias=" + B(rs3.choice([0.05, 0.0, 0.4])),
                                                        "seed=%d" % seed, "iters=%d" % iters])
                 rjobs.append(("SST", pb, seed, iters, line))
+    # ---------------- (b4) control EST lock-step: recorded sampler draws + the bit-exact RNG model for the planner's own rng_
+    rs4 = ck.rng.fork("est")
+    for kind in ("point", "uni", "dint", "car"):
+        for envname in ("empty", "wall", "two"):
+            for rep in range(10 if quick else 30):
+                pb = std_problem(kind, rs4.below(3), envname, pick_goal_kind(rs4)) if rep % 2 == 0 else random_problem(rs4, kind)
+                seed = rs4.below(100000)
+                iters = rs4.choice([0, 5, 60, 500, 2000] if quick else [0, 2, 30, 300, 2000, 5000])
+                line = " ".join(["est"] + pb.toks() + ["cell=" + B(rs4.choice([1.0, 0.5, 2.5, 0.3])), "k=%d" % rs4.choice([1, 2, 3]),
+                                                       "att=%d" % rs4.choice([100, 1, 1]), "bias=" + B(rs4.choice([0.05, 0.0, 0.4])), "seed=%d" % seed, "iters=%d" % iters])
+                rjobs.append(("EST", pb, seed, iters, line))
+    # ---------------- (b5) control KPIECE1 lock-step: recorded control-sampler draws + the RNG model for rng_
+    rs5 = ck.rng.fork("kpiece")
+    for kind in ("point", "uni", "dint", "car"):
+        for envname in ("empty", "wall", "two"):
+            for rep in range(10 if quick else 30):
+                pb = std_problem(kind, rs5.below(3), envname, pick_goal_kind(rs5)) if rep % 2 == 0 else random_problem(rs5, kind)
+                seed = rs5.below(100000)
+                iters = rs5.choice([0, 5, 60, 500, 2000] if quick else [0, 2, 30, 300, 2000, 5000])
+                line = " ".join(["kpiece"] + pb.toks() + ["cell=" + B(rs5.choice([1.0, 0.5, 2.5, 0.3])), "nclose=%d" % rs5.choice([30, 30, 3, 1, 0]),
+                                                          "bias=" + B(rs5.choice([0.05, 0.0, 0.4, 1.0])), "seed=%d" % seed, "iters=%d" % iters])
+                rjobs.append(("KPIECE1", pb, seed, iters, line))
     plays, impls = [], []
     with concurrent.futures.ThreadPoolExecutor(max_workers=min(16, os.cpu_count() or 4)) as ex:
         futs = [ex.submit(run_one, ck, hbin, j[4], NOLEAK) for j in rjobs]
         for j, fu in zip(rjobs, futs):
             out, rc, err = fu.result()
-            tag = "sst-lockstep" if j[0] == "SST" else "rrt-lockstep"
+            tag = {"SST": "sst-lockstep", "EST": "est-lockstep", "KPIECE1": "kpiece-lockstep"}.get(j[0], "rrt-lockstep")
             sol = judge_plan(ck, hbin, j[0], j[1], j[2], j[3], j[4], out, rc, err, tag, records)
             if sol is not None and len(out) >= 2:
                 plays.append(out[1])
                 impls.append((j, out[0]))
-                ck.count(tag + ":draws", out[1].count(" G") + out[1].count(" U "))
+                ck.count(tag + ":draws", out[1].count(" C ") if j[0] == "KPIECE1" else
+                         out[1].count(" G") + out[1].count(" U ") + out[1].count(" N ") + out[1].count(" X"))
                 ck.count(tag + ":goal-biased-draws", out[1].count(" G"))
-                ck.count(tag + ":tree-nodes", int(out[0].partition(" | tree ")[2].split()[0]))
+                if j[0] in ("EST", "KPIECE1"):
+                    hd = dict(x.split("=") for x in out[0].partition(" | ")[2].split()[1:4] if "=" in x)
+                    ck.count(tag + ":tree-nodes", int(hd.get("size", 0)))
+                    ck.count(tag + ":cells", int(hd.get("cells", 0)))
+                    ck.count(tag + ":valid-sampler-failures", out[1].count(" X"))
+                else:
+                    ck.count(tag + ":tree-nodes", int(out[0].partition(" | tree ")[2].split()[0]))
                 if j[0] == "SST":
                     ck.count("sst-lockstep:witnesses", int(out[0].partition(" | wits ")[2].split()[0]))
     if plays:
@@ -790,7 +824,7 @@ def run(ck):
                           obligation="correspondence control: control::%s::solve vs its Lean model on the recorded draws (first differing token %d)" % (j[0], pos))
                 ck.log("control %s lock-step disagreement (seed %d iters %d) at token %d" % (j[0], j[2], j[3], pos))
                 break
-            ck.count(("sst" if j[0] == "SST" else "rrt") + "-lockstep:identical-runs")
+            ck.count({"SST": "sst", "EST": "est", "KPIECE1": "kpiece"}.get(j[0], "rrt") + "-lockstep:identical-runs")
 
     # ---------------- (b2) control RRT on hand-shaped draw scripts: real planner with scripted samplers vs the model
     rs = ck.rng.fork("rrtplay")
@@ -895,7 +929,7 @@ def replay(ck, data):
     rcode = 0
     for line in script[1:]:
         t = line.split()
-        if t[0] in ("plan", "rrt", "sst"):
+        if t[0] in ("plan", "rrt", "sst", "est", "kpiece"):
             out, rc, err = run_one(ck, hbin, line, NOLEAK)
             if rc != 0 or not out:
                 print("harness rc=%s\n%s" % (rc, (err or "")[-3000:]))
@@ -909,7 +943,7 @@ def replay(ck, data):
             for f in fails:
                 print("PROPERTY FAILS [%s] segment %d: %s" % (f["clause"], f["seg"], f["detail"]))
                 rcode = 1
-            if t[0] in ("rrt", "sst") and len(out) >= 2:
+            if t[0] in ("rrt", "sst", "est", "kpiece") and len(out) >= 2:
                 model, _, _ = ck.run_bin(ck.driver(DRIVER), ["control", out[1]])
                 if model and model[0] != out[0]:
                     print("the planner model and the implementation disagree on the recorded draws")
@@ -935,17 +969,18 @@ MANIFEST = {
     "design_ref": "DESIGN.md 2.2",
     "text": "Lean 4 theorems (arithmetic-free: for every step function, validity predicate, script of sampler draws and interruption "
             "point) over executable models of SpaceInformation::propagateWhileValid (both overloads), SimpleDirectedControlSampler::sampleTo, "
-            "PathControl::check/interpolate/asGeometric, control::RRT::solve (both intermediate-state modes) and control::SST::solve (witness set, "
-            "best-representative replacement, solution snapshots): the reported (state, control, steps) "
+            "PathControl::check/interpolate/asGeometric, control::RRT::solve (both intermediate-state modes), control::SST::solve (witness set, "
+            "best-representative replacement, solution snapshots), control::EST::solve (grid cells, one PDF element per cell) and "
+            "control::KPIECE1::solve (GridB discretization, CloseSamples, splitting of motions at cell boundaries): the reported (state, control, steps) "
             "triples replay exactly with every intermediate step valid, durations are whole step counts in range, the first state is a "
             "valid start and an exact status implies the goal. The models are tied to the code by bit-exact lock-step runs (propagation "
-            "core on scripted validity predicates; control RRT and control SST re-run on the draws recorded from the real planners, comparing the "
-            "whole tree, costs and witnesses). EST, KPIECE1, PDST, SyclopRRT and SyclopEST have no model: their reported paths are checked by trace conformance "
+            "core on scripted validity predicates; control RRT, SST, EST and KPIECE1 re-run on the draws recorded from the real planners, comparing the "
+            "whole tree, costs, witnesses, grid cells, PDF weights, scores and importances). PDST, SyclopRRT and SyclopEST have no model: their reported paths are checked by trace conformance "
             "only — every explored run (4 systems incl. a non-additive car, 3 goal kinds incl. a plain predicate goal, box environments, seeds, evaluation budgets, k in {1,2,3,5} directed control samples) is re-propagated by an independent "
             "oracle and by the Lean spec replayOK; they are covered on the explored runs and nowhere else.",
     "note": "Trusted: Lean kernel and the three standard axioms; the hand-written models outside the explored scripts; the harness's three "
             "systems and recording wrappers; the Python copy of the systems. User propagators other than the four, ODE-solver "
-            "propagators and planners other than control RRT / SST beyond the explored runs are not verified; the sampler bound theorem is "
+            "propagators and planners other than control RRT / SST / EST / KPIECE1 beyond the explored runs are not verified; the sampler bound theorem is "
             "exact arithmetic (IEEE rounding executed, not verified).",
     "technique": "Lean 4 proof (tree invariant by induction over the script) + lock-step differential correspondence + trace conformance "
                  "with an independent replay oracle",
